@@ -43,6 +43,10 @@ pub enum Call {
     Query,
     QueryAll,
     QueryExactlyOne,
+    /// the authorizer is replaced by the one restored from its snapshot: budgets already used
+    /// and limit errors already met stay (only families without extern functions: a snapshot
+    /// cannot carry them)
+    SnapshotRestore,
 }
 
 #[derive(Clone, Debug, Serialize, Deserialize, Hash)]
@@ -55,6 +59,9 @@ pub struct Case {
     pub max_time_ticks: u64,
     pub history: Vec<Call>,
     pub in_token: bool,
+    /// the authorizer is built from a builder that went through its own snapshot first
+    #[serde(default)]
+    pub builder_snapshot: bool,
 }
 
 thread_local! {
@@ -257,6 +264,7 @@ pub fn gen_case(t: &mut Tape) -> Case {
         max_time_ticks: 0,
         history: vec![],
         in_token: t.chance(1, 3),
+        builder_snapshot: false,
     };
     let m = model_cost(&case);
     let around = |t: &mut Tape, x: u64| -> u64 {
@@ -291,6 +299,15 @@ pub fn gen_case(t: &mut Tape) -> Case {
     let calls = [Call::Run, Call::Authorize, Call::Query, Call::QueryAll, Call::QueryExactlyOne];
     let len = t.range(1, 4);
     case.history = (0..len).map(|_| *t.choose(&calls)).collect();
+    if matches!(case.family, Family::Chain | Family::ExpJoin) && t.chance(1, 3) {
+        // a snapshot round trip somewhere after the first call, then at least one more call
+        let at = t.range(1, case.history.len());
+        case.history.insert(at, Call::SnapshotRestore);
+        if at + 1 == case.history.len() {
+            case.history.push(*t.choose(&calls));
+        }
+        case.builder_snapshot = t.chance(1, 2);
+    }
     case
 }
 
@@ -329,6 +346,21 @@ pub fn test_case(ctx: &Ctx, case: &Case, rep: &mut Report) -> Result<(), Violati
         let mut ab = b::AuthorizerBuilder::new().set_extern_funcs(lib_externs()).limits(limits.clone());
         for p in &policies {
             ab = ab.policy(p.to_b(&keys)).map_err(|e| format!("{e:?}"))?;
+        }
+        if case.builder_snapshot && !case.in_token {
+            // facts, rules and checks are added before the round trip in this mode
+            for f in &blk.facts {
+                ab = ab.fact(f.to_fact()).map_err(|e| format!("{e:?}"))?;
+            }
+            for r in &blk.rules {
+                ab = ab.rule(r.to_b(&keys)).map_err(|e| format!("{e:?}"))?;
+            }
+            for c in &blk.checks {
+                ab = ab.check(c.to_b(&keys)).map_err(|e| format!("{e:?}"))?;
+            }
+            let snap = ab.to_raw_snapshot().map_err(|e| format!("builder snapshot: {e:?}"))?;
+            let restored = b::AuthorizerBuilder::from_raw_snapshot(&snap).map_err(|e| format!("builder restore: {e:?}"))?;
+            return restored.build_unauthenticated().map_err(|e| format!("{e:?}"));
         }
         if case.in_token {
             let root = vcore::keys::KeyPlan { alg: vcore::keys::Alg::Ed, seed: 77 }.keypair();
@@ -379,6 +411,11 @@ pub fn test_case(ctx: &Ctx, case: &Case, rep: &mut Report) -> Result<(), Violati
         let cached_run = matches!(call, Call::Run) && auth.execution_time().is_some();
         let r = guard(|| -> Result<String, biscuit_auth::error::Token> {
             match call {
+                Call::SnapshotRestore => {
+                    let snap = auth.to_raw_snapshot().map_err(biscuit_auth::error::Token::Format)?;
+                    auth = biscuit_auth::Authorizer::from_raw_snapshot(&snap)?;
+                    Ok("restored".to_string())
+                }
                 Call::Run => auth.run().map(|d| format!("{d:?}")),
                 Call::Authorize => auth.authorize().map(|i| format!("{i}")),
                 Call::Query => auth.query::<_, b::Fact, _>(query.to_b(&keys)).map(|v| format!("{}", v.len())),
@@ -400,6 +437,20 @@ pub fn test_case(ctx: &Ctx, case: &Case, rep: &mut Report) -> Result<(), Violati
             Ok(r) => r,
         };
         let fam = format!("{:?}", case.family);
+        if matches!(call, Call::SnapshotRestore) {
+            // not an evaluation: nothing to check on the call itself, the invariants go on with
+            // the restored object (iterations, facts and a limit error already met stay)
+            match &r {
+                Ok(_) => {
+                    rep.class("call:snapshot_restore");
+                    continue;
+                }
+                Err(e) => {
+                    tolerate(v(format!("snapshot-restore-error:{fam}"), format!("{e:?}\n{}", ctx_s())))?;
+                    return Ok(());
+                }
+            }
+        }
         match &r {
             Ok(_) => {
                 rep.class("call:ok");
